@@ -540,6 +540,14 @@ def check_numeric(case, rec):
         tol = _numeric_tolerance(Q, ice_spec, f, t, beta, direct, dz)
         if not math.isfinite(tol):
             continue
+        if direct and f[2] != t[2]:
+            # the direct distance is a trapezoid sum of the monotone tan(theta(z)) over the whole
+            # interval with equal steps: error <= step x |tan_a - tan_b| (twice the textbook bound)
+            n_a, n_b = Q.p.n_true(min(f[2], t[2])), Q.p.n_true(max(f[2], t[2]))
+            g_a, g_b = n_a * n_a - beta * beta, n_b * n_b - beta * beta
+            if g_a > 0 and g_b > 0:
+                step = abs(f[2] - t[2]) / max(1, int(abs(f[2] - t[2]) / dz))
+                tol = min(tol, step * abs(beta / math.sqrt(g_a) - beta / math.sqrt(g_b)) + 1e-9)
         err = abs(float(q[0]) - rho)
         worst = max(worst, err / max(tol, 1e-12))
         require(err <= tol + 1e-6 * rho + 1e-6,
